@@ -78,6 +78,14 @@ class SimDevice:
             self.answered.append((c, v + "-LATE", sent))
             self.late = (conn, data)
             return pre
+        if self.mode == "surplus" and line.split(" ", 1)[0].startswith("STATUS"):
+            # says everything twice, once: the second copy is more than the script consumes and stays in the daemon's buffer (recorded as
+            # <VERB>-LATE: whoever reads it later reads an answer that was given to the EARLIER query)
+            self.mode = "healthy"
+            data = self._handle(conn, line)
+            c, v, sent = self.answered[-1]
+            self.answered.append((c, v + "-LATE", dict(sent)))
+            return pre + data + data
         return pre + self._handle(conn, line)
 
     def _handle(self, conn, line):
